@@ -72,7 +72,11 @@ func runStmtLex(w *out.W, tier string) {
 	w1.Close()
 	src = "skel"
 	w2 := out.New(tmp + "/skel")
+	if tier != "thorough" {
+		planCountOverride = 1500 // + the whole 12 672-case sweep
+	}
 	runPlan(w2, tier, true)
+	planCountOverride = 0
 	w2.Close()
 	stmtSink = nil
 	// (b) every text of length <= 5 (thorough: 7) over the bytes the grammar distinguishes
@@ -98,7 +102,7 @@ func runStmtLex(w *out.W, tier string) {
 	// (c) random longer texts with words, digits, dollar signs, high bytes, newlines
 	r := rng.FromEnv(0x57A7)
 	pool := []string{`"`, "`", "'", ".", "a", "Z", "_", "1", "$", " ", "\\", "\n", ",", "(", ")", "\x80", `""`, "``", "''", `"."`, "`.`"}
-	cnt := 20000
+	cnt := 10000
 	if tier == "thorough" {
 		cnt = 400000
 	}
